@@ -32,6 +32,7 @@
 #include <csignal>
 #include <unistd.h>
 #include <fcntl.h>
+#include <sys/wait.h>
 #include <set>
 #include <map>
 
@@ -390,6 +391,123 @@ static std::vector<int> sourceOrder(int n, int variant)
   return r;
 }
 
+// all the hull operations of one case on one image; emit(channel, answers, tag): channel -1 = hull polygon and
+// target without selection, m >= 0 = target with previous selection masks[m]
+template <class Emit>
+static void hullOnImage(const Image& im, int slot, long id, const std::string& lvl, const std::vector<Pt>& src,
+                        const std::vector<int>& srcsel, const std::vector<Pt>& lat, const std::vector<Pt>& q,
+                        const std::vector<char>& skip, const std::vector<Mask>& masks, Emit emit)
+{
+  int nq = (int)q.size();
+  for (int sv = 0; sv < 2; sv++)      // 0: the source Db holds the set; 1: the whole lattice, the set = its active samples
+  {
+    int cnt = 2 * slot + sv;
+    int variant = (int)(id + slot + sv);
+    std::vector<Pt> pts;
+    std::vector<int> act;
+    if (sv == 0)
+    {
+      std::vector<int> ord = sourceOrder((int)src.size(), variant);
+      for (int k : ord) pts.push_back(src[k]);
+    }
+    else
+    {
+      if ((int)lat.size() != (int)srcsel.size()) continue;
+      std::vector<int> ord = sourceOrder((int)lat.size(), variant);
+      for (int k : ord) { pts.push_back(lat[k]); act.push_back(srcsel[k]); }
+    }
+    char tagb[96];
+    snprintf(tagb, sizeof tagb, "%s|%s,order%d|", im.name, sv ? "src=lattice+selection" : "src=set", variant % 4);
+    std::string tag(tagb);
+    Db* db1 = makeDb(im, pts, false, 0., sv ? &act : nullptr);
+    // the hull polygon itself
+    Polygons* P = Polygons::createFromDb(db1, 0., false);
+    std::string s1(nq, '.');
+    if (P == nullptr) s1 = std::string(nq, 'N');
+    else
+    {
+      VectorDouble c2(2), c3(3);
+      for (int i = 0; i < nq; i++)
+      {
+        if (skip[i]) continue;
+        c2[0] = mapx(im, q[i].x, q[i].y); c2[1] = mapy(im, q[i].x, q[i].y);
+        c3[0] = c2[0]; c3[1] = c2[1]; c3[2] = TEST;
+        s1[i] = ((i % 2) ? P->inside(c2, false) : P->inside(c3, (i % 4) == 0)) ? '1' : '0';
+      }
+    }
+    emit(-1, s1, tag + "Polygons::createFromDb.inside");
+    delete P;
+    // selection of the samples of a target Db made of the query points
+    for (int m = -1; m < (int)masks.size(); m++)
+    {
+      if (lvl != "full" && m >= 0 && ((cnt + m) % 3) != 0) continue;
+      Db* db2 = makeDb(im, q, (cnt % 2) == 1, TEST, m >= 0 ? &masks[m].active : nullptr);
+      bool viaDb = ((cnt + m) % 2) == 0;
+      int rc = viaDb ? db2->addSelectionFromDbByConvexHull(db1, 0., false) : db_selhull(db1, db2, 0., false);
+      std::string s(nq, '.');
+      if (rc != 0) s = std::string(nq, 'E');
+      else
+      {
+        VectorDouble sel = db2->getSelections();
+        if ((int)sel.size() != nq) s = std::string(nq, 'x');
+        else for (int i = 0; i < nq; i++)
+        {
+          if (skip[i]) continue;
+          bool a = db2->isActive(i);
+          s[i] = (sel[i] == 1. && a) ? '1' : (sel[i] == 0. && !a) ? '0' : 'x';
+        }
+      }
+      std::string t = tag + (viaDb ? "Db::addSelectionFromDbByConvexHull" : "db_selhull") +
+                      (m >= 0 ? "(target with " + masks[m].name + " selection)" : "(target without selection)");
+      emit(m, s, t);
+      delete db2;
+    }
+    delete db1;
+  }
+}
+
+// Runs f(emit) in a child process with a time limit and collects what it emitted.  Returns 0 when the child
+// ended normally, 'H' when it was killed by the time limit, 'C' when it died otherwise.
+template <class F, class Sink>
+static char inChild(FILE* out, int seconds, F f, Sink sink)
+{
+  int fd[2];
+  if (pipe(fd) != 0) return 'C';
+  fflush(out);
+  pid_t pid = fork();
+  if (pid < 0) { close(fd[0]); close(fd[1]); return 'C'; }
+  if (pid == 0)
+  {
+    close(fd[0]);
+    for (int sg : {SIGSEGV, SIGABRT, SIGFPE, SIGBUS, SIGILL, SIGALRM}) signal(sg, SIG_DFL);
+    alarm(seconds);
+    f([&](int ch, const std::string& s, const std::string& tag) {
+      std::string line = std::to_string(ch) + "\t" + s + "\t" + tag + "\n";
+      ssize_t w = write(fd[1], line.data(), line.size()); (void)w;
+    });
+    _exit(0);
+  }
+  close(fd[1]);
+  std::string got;
+  char buf[8192];
+  ssize_t k;
+  while ((k = read(fd[0], buf, sizeof buf)) > 0) got.append(buf, (size_t)k);
+  close(fd[0]);
+  int st = 0;
+  waitpid(pid, &st, 0);
+  std::stringstream ss(got);
+  std::string line;
+  while (std::getline(ss, line))
+  {
+    size_t t1 = line.find('\t'), t2 = line.find('\t', t1 + 1);
+    if (t1 == std::string::npos || t2 == std::string::npos) continue;
+    sink(atoi(line.substr(0, t1).c_str()), line.substr(t1 + 1, t2 - t1 - 1), line.substr(t2 + 1));
+  }
+  if (WIFEXITED(st) && WEXITSTATUS(st) == 0) return 0;
+  if (WIFSIGNALED(st) && WTERMSIG(st) == SIGALRM) return 'H';
+  return 'C';
+}
+
 static void runHull(const Value& c, const std::vector<Pt>& q0, const std::vector<Pt>& lat,
                     const std::vector<Mask>& masks, FILE* out)
 {
@@ -403,106 +521,58 @@ static void runHull(const Value& c, const std::vector<Pt>& q0, const std::vector
   for (int i = 0; i < nq; i++) skip[i] = (exp[i] == 2);
   std::string lvl = c.gets("lvl", "lite");
   std::vector<int> imgs = imagesFor(lvl, id);
-  Obs obs;
+  Obs obs, obsDied;
   std::vector<Obs> obsMask(masks.size());
-  int cnt = 0;
+  auto sink = [&](int ch, const std::string& s, const std::string& tag) {
+    if (ch < 0) obs.add(s, tag); else if (ch < (int)masks.size()) obsMask[ch].add(s, tag);
+  };
+  int slot = 0;
   for (int ii : imgs)
   {
     const Image& im = IMAGES[ii];
-    for (int sv = 0; sv < 2; sv++)      // 0: the source Db holds the set; 1: the whole lattice, the set = its active samples
+    if (!im.inexact)
+      hullOnImage(im, slot, id, lvl, src, srcsel, lat, q, skip, masks, sink);   // a crash / hang here ends the run (violation)
+    else
     {
-      int variant = (int)(id + ii + sv);
-      std::vector<Pt> pts;
-      std::vector<int> act;
-      if (sv == 0)
-      {
-        std::vector<int> ord = sourceOrder((int)src.size(), variant);
-        for (int k : ord) pts.push_back(src[k]);
-      }
-      else
-      {
-        if ((int)lat.size() != (int)srcsel.size()) continue;
-        std::vector<int> ord = sourceOrder((int)lat.size(), variant);
-        for (int k : ord) { pts.push_back(lat[k]); act.push_back(srcsel[k]); }
-      }
-      char tagb[96];
-      snprintf(tagb, sizeof tagb, "%s|%s,order%d|", im.name, sv ? "src=lattice+selection" : "src=set", variant % 4);
-      std::string tag(tagb);
-      Db* db1 = makeDb(im, pts, false, 0., sv ? &act : nullptr);
-      // the hull polygon itself
-      Polygons* P = Polygons::createFromDb(db1, 0., false);
-      std::string s1(nq, '.');
-      if (P == nullptr) s1 = std::string(nq, 'N');
-      else
-      {
-        VectorDouble c2(2), c3(3);
-        for (int i = 0; i < nq; i++)
-        {
-          if (skip[i]) continue;
-          c2[0] = mapx(im, q[i].x, q[i].y); c2[1] = mapy(im, q[i].x, q[i].y);
-          c3[0] = c2[0]; c3[1] = c2[1]; c3[2] = TEST;
-          s1[i] = ((i % 2) ? P->inside(c2, false) : P->inside(c3, (i % 4) == 0)) ? '1' : '0';
-        }
-      }
-      obs.add(s1, tag + "Polygons::createFromDb.inside");
-      delete P;
-      // selection of the samples of a target Db made of the query points
-      for (int m = -1; m < (int)masks.size(); m++)
-      {
-        if (lvl != "full" && m >= 0 && ((cnt + m) % 3) != 0) continue;
-        Db* db2 = makeDb(im, q, (cnt % 2) == 1, TEST, m >= 0 ? &masks[m].active : nullptr);
-        bool viaDb = ((cnt + m) % 2) == 0;
-        int rc = viaDb ? db2->addSelectionFromDbByConvexHull(db1, 0., false) : db_selhull(db1, db2, 0., false);
-        std::string s(nq, '.');
-        if (rc != 0) s = std::string(nq, 'E');
-        else
-        {
-          VectorDouble sel = db2->getSelections();
-          if ((int)sel.size() != nq) s = std::string(nq, 'x');
-          else for (int i = 0; i < nq; i++)
-          {
-            if (skip[i]) continue;
-            bool a = db2->isActive(i);
-            s[i] = (sel[i] == 1. && a) ? '1' : (sel[i] == 0. && !a) ? '0' : 'x';
-          }
-        }
-        std::string t = tag + (viaDb ? "Db::addSelectionFromDbByConvexHull" : "db_selhull") +
-                        (m >= 0 ? "(target with " + masks[m].name + " selection)" : "(target without selection)");
-        if (m < 0) obs.add(s, t); else obsMask[m].add(s, t);
-        delete db2;
-      }
-      delete db1;
-      cnt++;
+      // images by 1/3, 1/7: the coordinates are rounded, exactly collinear points become nearly collinear.  Run in a
+      // child process with a time limit; when it dies, what it answered before is kept and the death is reported
+      // in a channel of its own ("obsdied": 'H' = no answer within 5 s, 'C' = crashed)
+      char how = inChild(out, 5, [&](auto emit) { hullOnImage(im, slot, id, lvl, src, srcsel, lat, q, skip, masks, emit); }, sink);
+      if (how) obsDied.add(std::string(nq, how), std::string(im.name) + "|hull operations on an inexact image");
     }
+    slot++;
   }
   // scaling by 2^-12 (exact): the doubled areas of all lattice triangles (<= 16 * 2^-24) fall below the ABSOLUTE
   // tolerance 1e-6 with which Polygons::_getHullIndices declares three points collinear; channel of its own
   Obs obsTiny;
   if (lvl == "full")
   {
-    Db* db1 = makeDb(TINYHULL, src, false, 0., nullptr);
-    Polygons* P = Polygons::createFromDb(db1, 0., false);
-    std::string s1(nq, '.');
-    if (P == nullptr) s1 = std::string(nq, 'N');
-    else
-    {
-      VectorDouble c2(2);
-      for (int i = 0; i < nq; i++)
+    bool any = false;
+    char how = inChild(out, 2, [&](auto emit) {
+      Db* db1 = makeDb(TINYHULL, src, false, 0., nullptr);
+      Polygons* P = Polygons::createFromDb(db1, 0., false);
+      std::string r(nq, '.');
+      if (P == nullptr) r = std::string(nq, 'N');
+      else
       {
-        if (skip[i]) continue;
-        c2[0] = mapx(TINYHULL, q[i].x, q[i].y); c2[1] = mapy(TINYHULL, q[i].x, q[i].y);
-        s1[i] = P->inside(c2, false) ? '1' : '0';
+        VectorDouble c2(2);
+        for (int i = 0; i < nq; i++)
+        {
+          if (skip[i]) continue;
+          c2[0] = mapx(TINYHULL, q[i].x, q[i].y); c2[1] = mapy(TINYHULL, q[i].x, q[i].y);
+          r[i] = P->inside(c2, false) ? '1' : '0';
+        }
       }
-    }
-    obsTiny.add(s1, "s2^-12|src=set|Polygons::createFromDb.inside");
-    delete P;
-    delete db1;
+      emit(-1, r, "s2^-12|src=set|Polygons::createFromDb.inside");
+    }, [&](int, const std::string& s, const std::string& tag) { obsTiny.add(s, tag); any = true; });
+    if (how || !any) obsTiny.add(std::string(nq, how ? how : 'C'), "s2^-12|src=set|Polygons::createFromDb");
   }
   Value o = Value::object();
   o["id"] = Value(id);
   o["n"] = Value(obs.n);
   o["obs"] = obs.json();
   if (obsTiny.n) o["obstiny"] = obsTiny.json();
+  if (obsDied.n) o["obsdied"] = obsDied.json();
   Value om = Value::array();
   for (size_t m = 0; m < masks.size(); m++) om.push(obsMask[m].json());
   o["obsmask"] = om;
@@ -561,7 +631,7 @@ int main(int argc, char** argv)
       CURID = id;
       if (k == "poly") runPoly(c, q0, prev, out);
       else if (k == "set") runSet(c, q0, prev, noz, out);
-      else if (k == "hull") { alarm(120); runHull(c, q0, lat, masks, out); alarm(0); }
+      else if (k == "hull") { alarm(60); runHull(c, q0, lat, masks, out); alarm(0); }
       else continue;
       fflush(out);
       ncase++;
